@@ -5,5 +5,5 @@ CONSTANTS
   Ks = {2, 3}
   MaxLen = 5
   Variant = "high_before_increment"
-INVARIANTS VisitsExact FreqExact BuildExact
+INVARIANTS VisitsExact IndexExact
 CHECK_DEADLOCK FALSE
